@@ -117,6 +117,7 @@ LOOK += [('lookup', ('R1',), 'P', 'n'), ('lookup', ('R1',), 'P', 't'), ('lookup'
          ('queryAdapter', 'ob', 'P', ''), ('adapter_hook', 'ob', 'P', ''),
          ('queryMultiAdapter', 'ob', 'P', ''), ('subscribers', 'ob', 'P'),
          ('queryAdapter', 'ob2', 'P', ''), ('adapter_hook', 'ob', 'P1', ''),
+         ('adapter_hook', 'ob', 'P', None),      # two positional arguments only
          ('subscriptions', ('R1',), 'NONE'), ('subscribers', 'ob', 'NONE'),
          ('queryAdapter', 'obz', 'P', ''), ('lookup', ('SZS',), 'P', ''),
          ('lookup', ('E',), 'P', 'any'),
@@ -199,6 +200,9 @@ def do_look(W, op):
     if t == 'queryAdapter':
         return norm(r.queryAdapter(W[op[1]], W[op[2]], op[3]))
     if t == 'adapter_hook':
+        if op[3] is None:
+            # exactly what calling an interface does with an installed hook
+            return norm(r.adapter_hook(W[op[2]], W[op[1]]))
         return norm(r.adapter_hook(W[op[2]], W[op[1]], op[3]))
     if t == 'queryMultiAdapter':
         return norm(r.queryMultiAdapter([W[op[1]]], W[op[2]], op[3]))
